@@ -2,6 +2,7 @@
 // stdin: one JSON scenario per line; stdout: ndjson events (see DESIGN.md appendix B).
 #include "pv_common.hpp"
 #include "pv_lattice.hpp"
+#include "pv_index.hpp"
 #include <boost/mpi.hpp>
 
 static json g_current;
@@ -24,7 +25,9 @@ int main(int argc, char** argv) {
         std::string kind = sc.value("kind", "");
         if (sc.value("log", "") != "last") pv::emit({{"e", "Begin"}, {"id", sc.value("id", json())}});
         if (kind == "lattice") pv::run_lattice(sc);
+        else if (kind == "index") pv::run_index(sc);
         else pv::emit({{"e", "Error"}, {"id", sc.value("id", json())}, {"what", "unknown kind"}});
+        pv::emit({{"e", "Done"}, {"id", sc.value("id", json())}});
     }
     return 0;
 }
